@@ -129,7 +129,9 @@ def run(ctx):
                                            "coq": [sorted(mating), win2], "driver": [sorted(dv["mating"]), dv["win2"]]})
                 violations.append({"replay": rp, "no_input": True})
                 break
-    hseqs = "d3;d4;d4,d3;d2,d4,d3;d3,d3;d1,d2,d4,d3;d3,d4" + (";d5,d3;d6,d3;d5,d4,d3" if ctx["tier"] == "thorough" else ";d5,d3")
+    # (d<N>n<budget>: a deep search of the same position cut by a node budget comes first — seeded change r6C12a needs a root entry of
+    # depth >= 8 left by an INTERRUPTED search)
+    hseqs = "d3;d4;d4,d3;d2,d4,d3;d3,d3;d1,d2,d4,d3;d3,d4;d5,d3;d14n25000,d3;d14n70000,d3,d4" + (";d6,d3;d5,d4,d3;d16n300000,d3" if ctx["tier"] == "thorough" else "")
     chunks = [hfens[i::C.NPROC] for i in range(C.NPROC)]
 
     def hunt(chunk):
